@@ -281,6 +281,18 @@ def add_targets(E, spec, pid, classes=(GP, TPc)):
             ok2x = z3.And(h["header_received"].z, env.present(h.get("status")), status >= 20, status <= 29)
             return z3.Implies(z3.And(newly_done, ok2x), z3.Length(h["buffer"].z) > MAXBODY)
 
+        def dr_success_keeps_reading(ctx, old, args, outcome):
+            """every 2x status (20..29) has a body: the connection is not closed by the event that reads its header (only the cap closes it)"""
+            if outcome[0] != "return":
+                return None
+            p, data = args
+            h = ctx.heap[p.oid]
+            t = h["g_T"]
+            status = env.field_z(ctx, ctx.heap, p, "status", z3.Int("self.status"))
+            ok2x = z3.And(h["header_received"].z, env.present(h.get("status")), status >= 20, status <= 29)
+            was_closed = old.snap[t.oid]["g_closed"].z
+            return z3.Implies(z3.And(ok2x, z3.Not(was_closed), z3.Length(h["buffer"].z) <= MAXBODY), z3.Not(ctx.getf(t, "g_closed").z))
+
         def dr_nonsuccess_closes(ctx, old, args, outcome):
             if outcome[0] != "return":
                 return None
@@ -295,6 +307,7 @@ def add_targets(E, spec, pid, classes=(GP, TPc)):
             ensures=[("[INV,C13] invariant preserved (buffer/header/status/meta are functions of the bytes received); only an undecodable header line may raise (UnicodeDecodeError -> connection_lost(exc))", dr_inv),
                      ("[C13] more than the size cap: error set and connection closed", dr_cap),
                      ("[C13] a 2x response of at most the size cap is never cut off while it arrives", dr_within_cap),
+                     ("[C13] after a 2x header (any status 20..29) the client keeps reading: it does not close the connection itself", dr_success_keeps_reading),
                      ("[C13] a non-2x or unparsable header closes the connection at once", dr_nonsuccess_closes)])
 
         # ---- connection_lost --------------------------------------------------------------------
